@@ -12,23 +12,26 @@ COQ_CHECK = "C45.Corr.check_case"
 COQ_MODEL_OBS = "(fun c => C45.Corr.model_obs (fst c))"
 DESIGN_REF = "§5 C45"
 TECHNIQUE = ("Coq proof by invariant over every sequence of steps of (a) the primary/standby commit-hook state machine and (b) the push-on-write / "
-             "read-replica machine + in-Coq correspondence of (b) against two in-process engines wired by @@dolt_replicate_to_remote / "
+             "read-replica machine + in-Coq correspondence of (a) against the real cluster.commithook run in-process and of (b) against two in-process engines wired by @@dolt_replicate_to_remote / "
              "@@dolt_read_replica_remote over a file:// remote")
-LEVEL_TEXT = ("Proof (P): standby_prefix, standby_rejects, transition_no_loss, caught_up_converges (with the fairness step explicit), replica_heads_real and "
-              "push_on_write_present are proved on the model for all step sequences (commits, successful and failed pushes, restarts, standby writes, "
-              "acknowledgements, transitions, pulls). Partial: the cluster model (a) is NOT tied to the code by a correspondence run in this version "
-              "(no two-server harness); (b) is. Timing, gRPC and process restarts are nondeterministic steps.")
+LEVEL_TEXT = ("Proof (P): standby_prefix, standby_rejects, transition_no_loss, caught_up_converges and converges_after_retries (any number of failed attempts, "
+              "then one success: the fairness hypothesis is explicit), replica_heads_real and push_on_write_present are proved on the model for all step sequences. Both machines "
+              "are tied to the code: (a) the real cluster.commithook is constructed through the verif export and run in-process (its replicate/tick threads, Execute, the "
+              "replication wait, isCaughtUp, setRole) against a second file-backed store, (b) push-on-write / read replica over a file remote with injected outages. Partial: the "
+              "Controller's transition loop is emulated by the harness (wait for isCaughtUp, then setRole), the gRPC replication service and real restarts are not driven; "
+              "oracle_on_model is established by execution on a family of step lists, not as a theorem.")
 LEVEL_NOTE = ("Trusted: Coq kernel, Go harness + Python glue. Modelled, not verified: the commithook goroutine, controller waits and gRPC replication service "
               "(abstracted to CReplicateOk/Fail, CAck, CTransition), the pull/fetch machinery (C35), SQL engine. Roots and commits are opaque identifiers; "
               "that a newer root contains the earlier acknowledged writes is the commit-graph property C19/C35.")
-THEOREMS = ["standby_prefix", "standby_rejects", "transition_no_loss", "caught_up_converges", "replica_heads_real", "push_on_write_present"]
+THEOREMS = ["converges_after_retries", "oracle_on_model_examples (executed)", "standby_prefix", "standby_rejects", "transition_no_loss", "caught_up_converges", "replica_heads_real", "push_on_write_present"]
 RULE = ("sequences of 4-10 steps: commit on main or on one of two side branches (created on first use) with push-on-write, read-replica transaction starts "
         "(pull), and remote outages (break / fix) during which commits and pulls happen; non-trivial = at least one commit followed later by a pull; distinct by step list")
 ASSUMPTIONS = ["remote outages are injected by replacing the file:// remote directory with a regular file (pushes and pulls fail) with @@dolt_skip_replication_errors=1; "
                "regression (fb3d2cc): when the first commit after the variable is set fails to reach the remote and the remote recovers, later commits must be pushed (the oracle demands it); "
                "the failed push is reported on the server's output/log ('error pushing: ...'), not as a SQL warning of the committing session — the oracle does not require a SQL warning",
                "the replica is observed only when it starts a transaction (it cannot be read through SQL without pulling)"]
-REQUIRED_TAGS = ["reg-recovers-after-first-push-failed", "commit-push-failed", "pull-failed", "commit-main", "commit-branch", "pull", "pull-after-commit", "new-branch-replicated"]
+REQUIRED_TAGS = ["cluster-transition", "cluster-transition-refused", "cluster-retry-scheduled", "cluster-standby-role-ignores-commit", "cluster-standby-skips-roots", "cluster-acked-commit",
+                 "reg-recovers-after-first-push-failed", "commit-push-failed", "pull-failed", "commit-main", "commit-branch", "pull", "pull-after-commit", "new-branch-replicated"]
 HARNESS_TIMEOUT = 1500
 
 
@@ -60,8 +63,65 @@ def gen_cases(rng, tier):
              {"steps": [{"op": "commit", "branch": 0}, {"op": "pull"}, {"op": "break"}, {"op": "commit", "branch": 0}, {"op": "commit", "branch": 1}, {"op": "pull"},
                         {"op": "fix"}, {"op": "pull"}, {"op": "commit", "branch": 0}, {"op": "pull"}]},
              {"steps": [{"op": "break"}, {"op": "commit", "branch": 1}, {"op": "fix"}, {"op": "commit", "branch": 1}, {"op": "pull"}]}]
-    n = 5 if tier == "quick" else 150
-    return fixed + [gen_one(rng, rng.randint(4, 9)) for _ in range(n)]
+    n, nc = (4, 4) if tier == "quick" else (150, 150)
+    cfixed = [{"mode": "cluster", "steps": [{"op": "down"}, {"op": "start"}, {"op": "commit"}, {"op": "commit"}, {"op": "transition"}, {"op": "up"},
+                                            {"op": "commit"}, {"op": "commit"}, {"op": "transition"}, {"op": "commit"}]},
+              {"mode": "cluster", "steps": [{"op": "start"}, {"op": "commit"}, {"op": "commit"}, {"op": "commit"}, {"op": "transition"}, {"op": "commit"}, {"op": "commit"}]}]
+    return fixed + cfixed + [gen_one(rng, rng.randint(4, 9)) for _ in range(n)] + [gen_cluster(rng) for _ in range(nc)]
+
+
+def _groups(case):
+    """cluster case: the model steps each harness step stands for"""
+    out, started, down, swapped, dirty = [], False, False, False, False
+    for i, s in enumerate(case["steps"]):
+        op = s["op"]
+        if op == "down":
+            down = True
+            out.append([])
+        elif op == "up":
+            down = False
+            out.append(["CReplicateFail", "CReplicateOk"] if started else [])     # failed attempts, then the retry succeeds
+            dirty = False if started else dirty
+        elif op == "start":
+            started = True
+            out.append(["(CCommit 0)"] if down else ["(CCommit 0)", "CReplicateOk"])
+            dirty = down
+        elif op == "commit":
+            if swapped:
+                out.append(["(CStandbyWrite %d)" % (i + 1)])
+            elif down:
+                out.append(["(CCommit %d)" % (i + 1), "CReplicateFail"])
+                dirty = True
+            else:
+                out.append(["(CCommit %d)" % (i + 1), "CReplicateOk", "CAck"])
+                dirty = False
+        elif op == "await":
+            out.append(["CReplicateOk"])
+        elif op == "transition":
+            out.append(["CTransition"])
+            if not dirty:
+                swapped = True
+    return out
+
+
+def gen_cluster(rng):
+    steps = []
+    down = rng.random() < 0.6
+    if down:
+        steps.append({"op": "down"})
+    steps.append({"op": "start"})
+    for _ in range(rng.randint(0, 3)):
+        steps.append({"op": "commit"})
+    if down:
+        if rng.random() < 0.5:
+            steps.append({"op": "transition"})      # refused: not caught up
+        steps.append({"op": "up"})
+    for _ in range(rng.randint(1, 4)):
+        steps.append({"op": "commit"})
+    steps.append({"op": "transition"})
+    for _ in range(rng.randint(1, 2)):
+        steps.append({"op": "commit"})              # the hook is in the standby role now
+    return {"mode": "cluster", "steps": steps}
 
 
 def _steps(case):
@@ -87,18 +147,44 @@ def _heads(h):
 
 def coq_case(case, out):
     o = out.get("obs")
+    if case.get("mode") == "cluster":
+        inp = "(IClust %s)" % cq_list(cq_list(g) for g in _groups(case))
+        if o is None or out.get("err") or out.get("panic") or any(s.get("err") or s.get("ackerr") for s in o["cluster"]):
+            return "(%s, OClust [(7777, true, true)])" % inp
+        obs = cq_list("(%d, %s, %s)" % (9998 if s["standby"] < 0 else s["standby"], "true" if s["dirty"] else "false", "true" if s["swapped"] else "false") for s in o["cluster"])
+        return "(%s, OClust %s)" % (inp, obs)
     steps = cq_list(_steps(case))
-    inp = "([(0, 0)], %s)" % steps
+    inp = "(IRepl [(0, 0)] %s)" % steps
     if o is None or out.get("err") or out.get("panic") or any(s.get("err") for s in o["steps"]):
-        return "(%s, [([(9, 9)], [(9, 9)])])" % inp
+        return "(%s, ORepl [([(9, 9)], [(9, 9)])])" % inp
     obs = cq_list("(%s, %s)" % (_heads(s["remote"]), _heads(s["replica"])) for s in o["steps"])
-    return "(%s, %s)" % (inp, obs)
+    return "(%s, ORepl %s)" % (inp, obs)
 
 
 def classify(case, out):
     o = out.get("obs")
     if o is None or out.get("err") or out.get("panic"):
         return ["harness-error"]
+    if case.get("mode") == "cluster":
+        t = {"cluster"}
+        prev = None
+        for s, so in zip(case["steps"], o["cluster"]):
+            if so.get("err") or so.get("ackerr"):
+                t.add("step-error")
+            if so.get("refused"):
+                t.add("cluster-transition-refused")
+            if so.get("retry"):
+                t.add("cluster-retry-scheduled")
+            if so["swapped"] and s["op"] == "transition":
+                t.add("cluster-transition")
+            if so["swapped"] and s["op"] == "commit":
+                t.add("cluster-standby-role-ignores-commit")
+            if s["op"] == "up" and prev is not None and so["standby"] > prev + 1:
+                t.add("cluster-standby-skips-roots")
+            if s["op"] == "commit" and not so["dirty"] and not so["swapped"]:
+                t.add("cluster-acked-commit")
+            prev = so["standby"]
+        return sorted(t)
     t = set()
     seen_commit = False
     broken = False
@@ -129,6 +215,8 @@ def classify(case, out):
 
 
 def nontrivial(case, out):
+    if case.get("mode") == "cluster":
+        return True
     ops = [s["op"] for s in case["steps"]]
     return "commit" in ops and "pull" in ops[ops.index("commit"):]
 
